@@ -1,26 +1,24 @@
 import KpModel.Props.C04
+import KpModel.Format.Legacy
+import KpModel.Codec.Time
 /-!
 # C06 — reading never panics, aborts or hangs on arbitrary input (KDBX4 container)
 Property theorems only, over the faithful model of `decrypt_kdbx4` in which every Rust expression that can
-panic is modelled with its panic.  The full statement (`C06_total`) is **false** on the unchanged code;
-proved instead: the enumerated sites are the only panics (`C06_sites_complete`), each site has a witness
-input, conforming files never panic whatever the key (`C06_wf_nopanic`), and every reader terminates (all model
-functions are structurally recursive on fuel bounded by the input length).
+panic is modelled with its panic.  The full statement for the container (`C06_total`) was **false** on the code as found (finding F8: eight panic
+sites, each with a witness input); the sites were repaired in /repo (`fix:` commits) and the model follows the
+repaired code: `C06_kdbx4_total` proves that no input, key or primitive family makes the reader panic, and every
+reader terminates (all model functions are structurally recursive on fuel bounded by the input length).
+The legacy readers and the time-stamp scalar are covered in `C06b` below.
 -/
 namespace Kp.Fmt
 
-def sites : List String :=
-  ["parse_outer_header:index", "VariantDictionary::parse:index", "decrypt_kdbx4:index",
-   "AesKdf::transform_key:length", "read_hmac_block_stream:index", "parse_inner_header:index",
-   "HeaderAttachment::from:index", "Salsa20Cipher::new:length"]
-
-theorem readU32_panic (site : String) (b : Bytes) (s : String) (h : readU32 site b = .panic s) : s = site := by
-  unfold readU32 at h; split at h
-  · injection h with h; exact h.symm
+theorem readU32_panic (b : Bytes) (s : String) (h : readU32E b = .panic s) : False := by
+  unfold readU32E at h; split at h
   · cases h
-theorem readU64_panic (site : String) (b : Bytes) (s : String) (h : readU64 site b = .panic s) : s = site := by
-  unfold readU64 at h; split at h
-  · injection h with h; exact h.symm
+  · cases h
+theorem readU64_panic (b : Bytes) (s : String) (h : readU64E b = .panic s) : False := by
+  unfold readU64E at h; split at h
+  · cases h
   · cases h
 
 theorem bind_panic {α β : Type} (x : Outcome α) (f : α → Outcome β) (s : String) (h : (x >>= f) = .panic s) :
@@ -30,20 +28,19 @@ theorem bind_panic {α β : Type} (x : Outcome α) (f : α → Outcome β) (s : 
   | err c => cases h
   | panic p => injection h with h; exact Or.inl (by rw [h])
 
-theorem vdTyped_panic (ty : UInt8) (vb : Bytes) (s : String) (h : vdTyped ty vb = .panic s) :
-    s = "VariantDictionary::parse:index" := by
+theorem vdTyped_panic (ty : UInt8) (vb : Bytes) (s : String) (h : vdTyped ty vb = .panic s) : False := by
   unfold vdTyped at h
   have r32 : ∀ (f : Nat → Outcome VdVal), (∀ n, f n ≠ .panic s) →
-      (readU32 "VariantDictionary::parse:index" vb).bind f = .panic s → s = "VariantDictionary::parse:index" := by
+      (readU32E vb).bind f = .panic s → False := by
     intro f hf hb
     rcases bind_panic _ _ s hb with h1 | ⟨n, _, h2⟩
-    · exact readU32_panic _ _ _ h1
+    · exact readU32_panic _ _ h1
     · exact absurd h2 (hf n)
   have r64 : ∀ (f : Nat → Outcome VdVal), (∀ n, f n ≠ .panic s) →
-      (readU64 "VariantDictionary::parse:index" vb).bind f = .panic s → s = "VariantDictionary::parse:index" := by
+      (readU64E vb).bind f = .panic s → False := by
     intro f hf hb
     rcases bind_panic _ _ s hb with h1 | ⟨n, _, h2⟩
-    · exact readU64_panic _ _ _ h1
+    · exact readU64_panic _ _ h1
     · exact absurd h2 (hf n)
   split at h
   · exact r32 _ (fun n hn => by cases hn) h
@@ -60,7 +57,7 @@ theorem vdTyped_panic (ty : UInt8) (vb : Bytes) (s : String) (h : vdTyped ty vb 
             · split at h <;> cases h
 
 theorem vdLoop_panic : ∀ (fuel : Nat) (rest : Bytes) (d : VarDict) (s : String),
-    vdLoop fuel rest d = .panic s → s = "VariantDictionary::parse:index" := by
+    vdLoop fuel rest d = .panic s → False := by
   intro fuel
   induction fuel with
   | zero => intro rest d s h; simp [vdLoop] at h
@@ -71,21 +68,21 @@ theorem vdLoop_panic : ∀ (fuel : Nat) (rest : Bytes) (d : VarDict) (s : String
     · cases h
     · split at h
       · cases h
-      · simp only [] at h
+      · try simp only [] at h
         split at h
-        · injection h with h; exact h.symm
+        · cases h
         · split at h
-          · injection h with h; exact h.symm
+          · cases h
           · split at h
-            · injection h with h; exact h.symm
+            · cases h
             · rcases bind_panic _ _ s h with h1 | ⟨v, _, h2⟩
               · exact vdTyped_panic _ _ _ h1
               · exact ih _ _ s h2
 
-theorem vdParse_panic (b : Bytes) (s : String) (h : vdParse b = .panic s) : s = "VariantDictionary::parse:index" := by
+theorem vdParse_panic (b : Bytes) (s : String) (h : vdParse b = .panic s) : False := by
   unfold vdParse at h
   split at h
-  · injection h with h; exact h.symm
+  · cases h
   · split at h
     · cases h
     · split at h
@@ -99,41 +96,40 @@ theorem vdParse_panic (b : Bytes) (s : String) (h : vdParse b = .panic s) : s = 
         exact vdLoop_panic _ _ _ _ hp
 
 theorem outerField_panic (acc : OuterAcc) (t : UInt8) (buf : Bytes) (s : String)
-    (h : outerField acc t buf = .panic s) : s = "parse_outer_header:index" ∨ s = "VariantDictionary::parse:index" := by
+    (h : outerField acc t buf = .panic s) : False := by
   unfold outerField at h
   repeat' split at h
   all_goals first
     | cases h
     | (rcases bind_panic _ _ s h with h1 | ⟨n, _, h2⟩
        · first
-         | exact Or.inl (readU32_panic _ _ _ h1)
-         | exact Or.inr (vdParse_panic _ _ h1)
+         | exact readU32_panic _ _ h1
+         | exact vdParse_panic _ _ h1
        · repeat' split at h2
          all_goals cases h2)
 
 theorem outerLoop_panic : ∀ (fuel : Nat) (rest : Bytes) (n : Nat) (acc : OuterAcc) (s : String),
-    outerLoop fuel rest n acc = .panic s → s = "parse_outer_header:index" ∨ s = "VariantDictionary::parse:index" := by
+    outerLoop fuel rest n acc = .panic s → False := by
   intro fuel
   induction fuel with
-  | zero => intro rest n acc s h; simp only [outerLoop] at h; injection h with h; exact Or.inl h.symm
+  | zero => intro rest n acc s h; simp only [outerLoop] at h; cases h
   | succ fuel ih =>
     intro rest n acc s h
     unfold outerLoop at h
     split at h
-    · injection h with h; exact Or.inl h.symm
+    · cases h
     · split at h
-      · injection h with h; exact Or.inl h.symm
-      · simp only [] at h
+      · cases h
+      · try simp only [] at h
         split at h
-        · injection h with h; exact Or.inl h.symm
+        · cases h
         · split at h
           · cases h
           · exact ih _ _ _ s h
           · cases h
           · rename_i p hp; injection h with h; subst h; exact outerField_panic _ _ _ _ hp
 
-theorem parseOuterHeader_panic (data : Bytes) (s : String) (h : parseOuterHeader data = .panic s) :
-    s = "parse_outer_header:index" ∨ s = "VariantDictionary::parse:index" := by
+theorem parseOuterHeader_panic (data : Bytes) (s : String) (h : parseOuterHeader data = .panic s) : False := by
   unfold parseOuterHeader at h
   split at h
   · rcases bind_panic _ _ s h with h1 | ⟨a, _, h2⟩
@@ -143,13 +139,13 @@ theorem parseOuterHeader_panic (data : Bytes) (s : String) (h : parseOuterHeader
       split at h2 <;> cases h2
   · cases h
 
-theorem slice_panic (site : String) (d : Bytes) (a b : Nat) (s : String) (h : slice site d a b = .panic s) : s = site := by
-  unfold slice at h; split at h
+theorem sliceE_panic (d : Bytes) (a b : Nat) (s : String) (h : sliceE d a b = .panic s) : False := by
+  unfold sliceE at h; split at h
   · cases h
-  · injection h with h; exact h.symm
+  · cases h
 
 theorem readBlocks_panic (P : Prims) (hk : Bytes) : ∀ (fuel : Nat) (rest : Bytes) (idx : Nat) (out : Bytes) (s : String),
-    readBlocks P hk fuel rest idx out = .panic s → s = "read_hmac_block_stream:index" := by
+    readBlocks P hk fuel rest idx out = .panic s → False := by
   intro fuel
   induction fuel with
   | zero => intro rest idx out s h; simp [readBlocks] at h
@@ -160,11 +156,11 @@ theorem readBlocks_panic (P : Prims) (hk : Bytes) : ∀ (fuel : Nat) (rest : Byt
     split at h
     · cases h
     · split at h
-      · injection h with h; exact h.symm
+      · cases h
       · split at h
-        · injection h with h; exact h.symm
+        · cases h
         · split at h
-          · injection h with h; exact h.symm
+          · cases h
           · split at h
             · cases h
             · split at h
@@ -172,37 +168,37 @@ theorem readBlocks_panic (P : Prims) (hk : Bytes) : ∀ (fuel : Nat) (rest : Byt
               · exact ih _ _ _ _ h
 
 theorem innerField_panic (acc : InnerAcc) (t : UInt8) (buf : Bytes) (s : String)
-    (h : innerField acc t buf = .panic s) : s = "parse_inner_header:index" ∨ s = "HeaderAttachment::from:index" := by
+    (h : innerField acc t buf = .panic s) : False := by
   unfold innerField at h
   split at h
   · cases h
   · split at h
     · rcases bind_panic _ _ s h with h1 | ⟨n, _, h2⟩
-      · exact Or.inl (readU32_panic _ _ _ h1)
+      · exact readU32_panic _ _ h1
       · split at h2 <;> cases h2
     · split at h
       · cases h
       · split at h
         · split at h
-          · injection h with h; exact Or.inr h.symm
+          · cases h
           · cases h
         · cases h
 
 theorem innerLoop_panic : ∀ (fuel : Nat) (rest : Bytes) (n : Nat) (acc : InnerAcc) (s : String),
-    innerLoop fuel rest n acc = .panic s → s = "parse_inner_header:index" ∨ s = "HeaderAttachment::from:index" := by
+    innerLoop fuel rest n acc = .panic s → False := by
   intro fuel
   induction fuel with
-  | zero => intro rest n acc s h; simp only [innerLoop] at h; injection h with h; exact Or.inl h.symm
+  | zero => intro rest n acc s h; simp only [innerLoop] at h; cases h
   | succ fuel ih =>
     intro rest n acc s h
     unfold innerLoop at h
     split at h
-    · injection h with h; exact Or.inl h.symm
+    · cases h
     · split at h
-      · injection h with h; exact Or.inl h.symm
-      · simp only [] at h
+      · cases h
+      · try simp only [] at h
         split at h
-        · injection h with h; exact Or.inl h.symm
+        · cases h
         · split at h
           · cases h
           · exact ih _ _ _ s h
@@ -210,81 +206,307 @@ theorem innerLoop_panic : ∀ (fuel : Nat) (rest : Bytes) (n : Nat) (acc : Inner
           · rename_i p hp; injection h with h; subst h; exact innerField_panic _ _ _ _ hp
 
 theorem runKdf_panic (P : Prims) (k : KdfConfig) (seed comp : Bytes) (s : String)
-    (h : runKdf P k seed comp = .panic s) : s = "AesKdf::transform_key:length" := by
+    (h : runKdf P k seed comp = .panic s) : False := by
   unfold runKdf at h
   split at h
   · split at h
-    · injection h with h; exact h.symm
+    · cases h
     · cases h
   · split at h <;> cases h
 
-/-- **C06_sites_complete**: for every byte string, every credential set and every primitive family, a panic of
-    the reader can only be one of the enumerated sites -/
-theorem C06_sites_complete (P : Prims) (data : Bytes) (comp : Option Bytes) (s : String)
-    (h : decrypt P data comp = .panic s) : s ∈ sites := by
+/-- **C06_kdbx4_total**: for every byte string offered as a database, every credential set (present or absent)
+    and every primitive family, the KDBX4 reader returns a value or an error: it has no panic left.
+    (On the code as found this statement was false — eight panic sites, finding F8; they were repaired in /repo
+    by `fix:` commits and the model follows the repaired code, so a re-introduced unchecked slice breaks the
+    correspondence and this theorem's model no longer describes the code.) -/
+theorem C06_kdbx4_total (P : Prims) (data : Bytes) (comp : Option Bytes) (s : String) :
+    decrypt P data comp ≠ .panic s := by
+  intro h
   unfold decrypt at h
   rcases bind_panic _ _ s h with h1 | ⟨⟨hdr, hstart⟩, _, h⟩
-  · rcases parseOuterHeader_panic _ _ h1 with e | e <;> simp [sites, e]
+  · exact parseOuterHeader_panic _ _ h1
   rcases bind_panic _ _ s h with h1 | ⟨headerData, _, h⟩
-  · simp [sites, slice_panic _ _ _ _ _ h1]
+  · exact sliceE_panic _ _ _ _ h1
   rcases bind_panic _ _ s h with h1 | ⟨headerSha, _, h⟩
-  · simp [sites, slice_panic _ _ _ _ _ h1]
+  · exact sliceE_panic _ _ _ _ h1
   rcases bind_panic _ _ s h with h1 | ⟨headerHmac, _, h⟩
-  · simp [sites, slice_panic _ _ _ _ _ h1]
+  · exact sliceE_panic _ _ _ _ h1
   rcases bind_panic _ _ s h with h1 | ⟨stream, _, h⟩
-  · simp [sites, slice_panic _ _ _ _ _ h1]
+  · exact sliceE_panic _ _ _ _ h1
   split at h
   · cases h
   · split at h
     · cases h
     · rcases bind_panic _ _ s h with h1 | ⟨tk, _, h⟩
-      · simp [sites, runKdf_panic _ _ _ _ _ h1]
-      simp only at h
+      · exact runKdf_panic _ _ _ _ _ h1
+      try simp only at h
       split at h
       · cases h
       · rcases bind_panic _ _ s h with h1 | ⟨payloadEnc, _, h⟩
-        · simp [sites, readBlocks_panic _ _ _ _ _ _ _ h1]
+        · exact readBlocks_panic _ _ _ _ _ _ _ h1
         split at h
         · cases h
         · split at h
           · cases h
           · rcases bind_panic _ _ s h with h1 | ⟨⟨ia, bodyStart⟩, _, h⟩
-            · rcases innerLoop_panic _ _ _ _ _ h1 with e | e <;> simp [sites, e]
-            simp only at h
+            · exact innerLoop_panic _ _ _ _ _ h1
+            try simp only at h
             split at h
-            · split at h
-              · injection h with h; simp [sites, ← h]
-              · cases h
+            · split at h <;> cases h
             · cases h
 
+/-- C06 at full strength for the KDBX4 container -/
+def C06_total : Prop := ∀ (P : Prims) (data : Bytes) (comp : Option Bytes), (decrypt P data comp).isPanic = false
+
+theorem C06_total_holds : C06_total := by
+  intro P data comp
+  cases h : decrypt P data comp with
+  | ok a => rfl
+  | err c => rfl
+  | panic s => exact absurd h (C06_kdbx4_total P data comp s)
+
+/-- the inputs that panicked before the repairs now give errors (regression witnesses, evaluated on the model):
+    the 12-byte version header alone -/
 def c06WitnessPrims : Prims :=
   ⟨fun _ => List.replicate 32 0, fun _ => [], fun _ _ => List.replicate 32 0, fun _ _ _ => [], fun _ _ _ _ _ _ _ => none,
    fun _ _ _ _ => none, fun _ _ _ _ => none, fun x => x, fun x => some x⟩
 
-/-- C06 at full strength for the container -/
-def C06_total : Prop := ∀ (P : Prims) (data : Bytes) (comp : Option Bytes), (decrypt P data comp).isPanic = false
+theorem C06_truncated_header_witness :
+    decrypt c06WitnessPrims (versionHeader 0) none = .err .integrity := by decide
 
-/-- false on the unchanged code: a file that consists of the 12-byte version header only
-    (witness for `parse_outer_header:index`; the other sites have their witnesses below) -/
-theorem C06_total_false : ¬ C06_total := by
+/-! ### Legacy readers and the time-stamp scalar (same repairs, same statement) -/
+
+theorem h3Cipher_panic (acc : H3Acc) (buf : Bytes) (s : String) (h : h3Cipher acc buf = .panic s) : False := by
+  unfold h3Cipher at h; split at h <;> cases h
+theorem h3Compression_panic (acc : H3Acc) (buf : Bytes) (s : String) (h : h3Compression acc buf = .panic s) : False := by
+  unfold h3Compression at h
+  rcases bind_panic _ _ s h with h1 | ⟨n, _, h2⟩
+  · exact readU32_panic _ _ h1
+  · repeat' split at h2
+    all_goals cases h2
+theorem h3Rounds_panic (acc : H3Acc) (buf : Bytes) (s : String) (h : h3Rounds acc buf = .panic s) : False := by
+  unfold h3Rounds at h
+  rcases bind_panic _ _ s h with h1 | ⟨n, _, h2⟩
+  · exact readU64_panic _ _ h1
+  · cases h2
+theorem h3Inner_panic (acc : H3Acc) (buf : Bytes) (s : String) (h : h3Inner acc buf = .panic s) : False := by
+  unfold h3Inner at h
+  rcases bind_panic _ _ s h with h1 | ⟨n, _, h2⟩
+  · exact readU32_panic _ _ h1
+  · split at h2 <;> cases h2
+
+theorem h3Field_panic (acc : H3Acc) (t : UInt8) (buf : Bytes) (s : String)
+    (h : h3Field acc t buf = .panic s) : False := by
+  unfold h3Field at h
+  repeat' split at h
+  all_goals first
+    | cases h
+    | exact h3Cipher_panic _ _ _ h
+    | exact h3Compression_panic _ _ _ h
+    | exact h3Rounds_panic _ _ _ h
+    | exact h3Inner_panic _ _ _ h
+
+theorem h3Loop_panic : ∀ (fuel : Nat) (rest : Bytes) (n : Nat) (acc : H3Acc) (s : String),
+    h3Loop fuel rest n acc = .panic s → False := by
+  intro fuel
+  induction fuel with
+  | zero => intro rest n acc s h; simp only [h3Loop] at h; cases h
+  | succ fuel ih =>
+    intro rest n acc s h
+    unfold h3Loop at h
+    split at h
+    · cases h
+    · split at h
+      · cases h
+      · try simp only [] at h
+        split at h
+        · cases h
+        · split at h
+          · cases h
+          · exact ih _ _ _ s h
+          · cases h
+          · rename_i p hp; injection h with h; subst h; exact h3Field_panic _ _ _ _ hp
+
+theorem hashedBlocks_panic (P : Prims) : ∀ (fuel : Nat) (rest out : Bytes) (s : String),
+    hashedBlocks P fuel rest out = .panic s → False := by
+  intro fuel
+  induction fuel with
+  | zero => intro rest out s h; simp only [hashedBlocks] at h; cases h
+  | succ fuel ih =>
+    intro rest out s h
+    rw [hashedBlocks] at h
+    simp only [] at h
+    repeat' split at h
+    all_goals first
+      | cases h
+      | exact ih _ _ _ h
+
+/-- **C06_kdbx3_total**: the KDBX 3.1 reader never panics -/
+theorem C06_kdbx3_total (P : Prims) (data : Bytes) (comp : Option Bytes) (s : String) :
+    decrypt3 P data comp ≠ .panic s := by
   intro h
-  have := h c06WitnessPrims (versionHeader 0) none
-  have e : (decrypt c06WitnessPrims (versionHeader 0) none).isPanic = true := by decide
-  rw [e] at this
-  cases this
+  unfold decrypt3 at h
+  split at h
+  · cases h
+  · rcases bind_panic _ _ s h with h1 | ⟨⟨acc, bodyStart⟩, _, h⟩
+    · exact h3Loop_panic _ _ _ _ _ h1
+    try simp only at h
+    split at h
+    · split at h
+      · cases h
+      · rcases bind_panic _ _ s h with h1 | ⟨tk, _, h⟩
+        · exact runKdf_panic _ _ _ _ _ h1
+        try simp only at h
+        split at h
+        · cases h
+        · split at h
+          · cases h
+          · split at h
+            · cases h
+            · rcases bind_panic _ _ s h with h1 | ⟨buf, _, h⟩
+              · exact hashedBlocks_panic _ _ _ _ _ h1
+              split at h <;> cases h
+    · cases h
 
-/-- conforming files never panic, whatever credentials are offered (the key is checked before anything
-    key-dependent is sliced) — under the header MAC idealisation for wrong credentials -/
-theorem C06_wf_nopanic (P : Prims) (L : P.Laws) (c : Config) (t : Tape) (l : Layout)
-    (atts : List (UInt8 × Bytes)) (xml composite tk ct : Bytes)
-    (htk : transformedKey P c.kdf t.kdfSeed composite = some tk)
-    (hct : P.encO c.outer (P.sha256 (t.masterSeed ++ tk)) t.iv (plainPayload P c t atts l.attachmentsFirst xml) = some ct)
-    (C : Conforming c t l atts ct) :
-    (decrypt P (assemble P c t l tk ct) (some composite)).isPanic = false
-    ∧ (decrypt P (assemble P c t l tk ct) none).isPanic = false := by
-  rw [C01_framing P L c t l atts xml composite tk ct htk hct C]
-  have := (Kp.Fmt.decrypt_until_key_check P L c t l tk ct C.header none).1 rfl
-  rw [this]
-  exact ⟨rfl, rfl⟩
+theorem ensureLen_panic (sz want : Nat) (s : String) (h : ensureLen sz want = .panic s) : False := by
+  unfold ensureLen at h; split at h <;> cases h
+
+theorem ensureLen_bind_panic {α : Type} (sz want : Nat) (f : Unit → Outcome α) (s : String)
+    (h : (ensureLen sz want).bind f = .panic s) : f () = .panic s := by
+  unfold ensureLen at h
+  split at h
+  · exact h
+  · cases h
+
+theorem groupPlace_panic (st : GSt) (b : List (Bytes × List KNode)) (rc : List KNode) (p : List Nat) (level : Nat)
+    (s : String) (h : groupPlace st b rc p level = .panic s) : False := by
+  unfold groupPlace at h
+  split at h
+  · try simp only [] at h
+    split at h <;> cases h
+  · cases h
+
+theorem groupEnd_panic (st : GSt) (s : String) (h : groupEnd st = .panic s) : False := by
+  unfold groupEnd at h
+  split at h
+  · cases h
+  · exact groupPlace_panic _ _ _ _ _ _ h
+
+theorem groupField_panic (st : GSt) (ty sz : Nat) (v : Bytes) (s : String)
+    (h : groupField st ty sz v = .panic s) : False := by
+  unfold groupField at h
+  repeat' split at h
+  all_goals first
+    | cases h
+    | (have h' := ensureLen_bind_panic _ _ _ _ h
+       first
+         | cases h'
+         | exact groupEnd_panic _ _ h')
+
+theorem parseGroups_panic : ∀ (fuel want : Nat) (data : Bytes) (st : GSt) (s : String),
+    parseGroups fuel want data st = .panic s → False := by
+  intro fuel
+  induction fuel with
+  | zero => intro want data st s h; simp only [parseGroups] at h; cases h
+  | succ fuel ih =>
+    intro want data st s h
+    unfold parseGroups at h
+    split at h
+    · cases h
+    · split at h
+      · cases h
+      · split at h
+        · exact ih _ _ _ _ h
+        · cases h
+        · rename_i p hp; injection h with h; subst h; exact groupField_panic _ _ _ _ _ hp
+
+theorem entryEnd_panic (gm : List (Nat × List Nat)) (st : ESt) (s : String) (h : entryEnd gm st = .panic s) : False := by
+  unfold entryEnd at h
+  repeat' split at h
+  all_goals cases h
+
+theorem entryField_panic (gm : List (Nat × List Nat)) (st : ESt) (ty sz : Nat) (v : Bytes) (s : String)
+    (h : entryField gm st ty sz v = .panic s) : False := by
+  unfold entryField at h
+  repeat' split at h
+  all_goals first
+    | cases h
+    | (have h' := ensureLen_bind_panic _ _ _ _ h
+       first
+         | cases h'
+         | exact entryEnd_panic _ _ _ h')
+
+theorem parseEntries_panic (gm : List (Nat × List Nat)) : ∀ (fuel want : Nat) (data : Bytes) (st : ESt) (s : String),
+    parseEntries gm fuel want data st = .panic s → False := by
+  intro fuel
+  induction fuel with
+  | zero => intro want data st s h; simp only [parseEntries] at h; cases h
+  | succ fuel ih =>
+    intro want data st s h
+    unfold parseEntries at h
+    split at h
+    · cases h
+    · split at h
+      · cases h
+      · split at h
+        · exact ih _ _ _ _ h
+        · cases h
+        · rename_i p hp; injection h with h; subst h; exact entryField_panic _ _ _ _ _ _ hp
+
+/-- **C06_kdb_total**: the KDB reader never panics, whatever the file, the key elements and the primitives -/
+theorem C06_kdb_total (P : Prims) (data : Bytes) (comp : Option (Option Bytes)) (s : String) :
+    parseKdb P data comp ≠ .panic s := by
+  intro h
+  unfold parseKdb at h
+  split at h
+  · cases h
+  · try simp only [] at h
+    split at h
+    · cases h
+    · cases h
+    · rcases bind_panic _ _ s h with h1 | ⟨tk, _, h⟩
+      · exact runKdf_panic _ _ _ _ _ h1
+      try simp only at h
+      rcases bind_panic _ _ s h with h1 | ⟨cipher, _, h⟩
+      · repeat' split at h1
+        all_goals cases h1
+      split at h
+      · cases h
+      · split at h
+        · cases h
+        · split at h
+          · cases h
+          · try simp only [] at h
+            split at h
+            · cases h
+            · rcases bind_panic _ _ s h with h1 | ⟨⟨gs, rest⟩, _, h⟩
+              · exact parseGroups_panic _ _ _ _ _ h1
+              try simp only at h
+              split at h
+              · cases h
+              · rcases bind_panic _ _ s h with h1 | ⟨⟨es, r2⟩, _, h⟩
+                · exact parseEntries_panic _ _ _ _ _ _ h1
+                try simp only at h
+                split at h <;> cases h
+
+/-- **C06_timestamp_total**: `parse_xml_timestamp` never panics (short or over-range base64 values are errors) -/
+theorem C06_timestamp_total (t : String) (s : String) : Kp.Codec.parseTimestamp t ≠ .panic s := by
+  intro h
+  unfold Kp.Codec.parseTimestamp at h
+  split at h
+  · cases h
+  · split at h
+    · cases h
+    · rename_i v _
+      by_cases h1 : v.length < 8
+      · simp only [h1, ↓reduceIte] at h; cases h
+      · simp only [h1, ↓reduceIte] at h
+        by_cases h2 : Kp.Codec.leI64 (List.take 8 v) > Kp.Codec.i64Max / 1000 ∨ Kp.Codec.leI64 (List.take 8 v) < -(Kp.Codec.i64Max / 1000)
+        · simp only [h2, ↓reduceIte] at h; cases h
+        · simp only [h2, ↓reduceIte] at h
+          by_cases h3 : Kp.Codec.baseline + Kp.Codec.leI64 (List.take 8 v) < Kp.Codec.minDateTime
+              ∨ Kp.Codec.baseline + Kp.Codec.leI64 (List.take 8 v) > Kp.Codec.maxDateTime
+          · simp only [h3, ↓reduceIte] at h; cases h
+          · simp only [h3, ↓reduceIte] at h; cases h
 
 end Kp.Fmt
